@@ -48,6 +48,46 @@ def unconditional_once(ctx: Ctx, fi, calls, res, rid, what, allow_conditions=())
     res.ok(rid, {"exactly once": what, "in": fi.qname, "at": fi.loc(c)})
 
 
+def flush_rules(ctx: Ctx, res: Result, RID: str):
+    """flush lets no task outcome escape, closes first, and waits for every pending future with the guard inside the loop."""
+    p, t, g = ctx.prog, ctx.types, ctx.guards
+    flush = p.func(TH + ".flush")
+    esc = g.escape_tokens(flush)
+    if not esc:
+        res.ok(RID, {"flush lets nothing escape": True})
+    for s, e in g.unguarded_sites(flush):
+        for tok, ch in sorted(e.items()):
+            res.fail(Finding(RID, flush.qname, s.node, flush.loc(s.node),
+                             "%s escapes flush: a failed/slow task (or a racing completion) makes flush raise "
+                             "instead of returning after all tasks finished" % tok, path=g.fmt_chain(ch)))
+    waits = [c for c in t.calls_in(flush) if (isinstance(c.func, ast.Attribute) and c.func.attr in ("result", "exception"))
+             or any(e == "concurrent.futures.wait" for e in t.resolve_call(c, flush).ext)]
+    if not waits:
+        res.fail(Finding(RID, flush.qname, "<wait on pending futures>", flush.loc(), "flush does not wait for pending tasks"))
+    for w in waits:
+        loops = paths.enclosing_loops(p, w, flush)
+        tok = "Exception"
+        ct = g.catching_try(w, flush, tok)
+        if loops and ct is not None and any(paths.within(p, lp, ct[0]) for lp in loops):
+            res.fail(Finding(RID, flush.qname, w, flush.loc(w), "the guard wraps the whole wait loop: one timeout stops waiting for the rest"))
+        else:
+            res.ok(RID, {"wait": norm(w), "at": flush.loc(w), "per-future": bool(loops)})
+        if loops:
+            it = getattr(loops[0], "iter", None)
+            if it is not None and "_pending" in norm(it):
+                res.ok(RID, {"iterates": norm(it)})
+            else:
+                res.fail(Finding(RID, flush.qname, loops[0].iter if hasattr(loops[0], "iter") else w, flush.loc(w),
+                                 "flush does not iterate the pending map"))
+    closes = [n for n in t.nodes_in(flush, ast.Assign) if any(isinstance(x, ast.Attribute) and x.attr == "_open" for x in n.targets)]
+    if closes and isinstance(closes[0].value, ast.Constant) and closes[0].value.value is False and \
+            all(paths.dominates(p, closes[0], w, flush) for w in waits):
+        res.ok(RID, {"closed before waiting": flush.loc(closes[0])})
+    else:
+        res.fail(Finding(RID, flush.qname, "<self._open = False>", flush.loc(), "flush does not close the handler before waiting"))
+
+
+
 def run(ctx: Ctx, tier: str) -> Result:
     res = Result("C09")
     res.explanation = (
@@ -127,40 +167,7 @@ def run(ctx: Ctx, tier: str) -> Result:
     unconditional_once(ctx, push_task, sends, res, "C09.B", "stub.send", allow_conditions=(converted_not_none,))
 
     # ---------------- C
-    flush = p.func(TH + ".flush")
-    esc = g.escape_tokens(flush)
-    if not esc:
-        res.ok("C09.C", {"flush lets nothing escape": True})
-    for s, e in g.unguarded_sites(flush):
-        for tok, ch in sorted(e.items()):
-            res.fail(Finding("C09.C", flush.qname, s.node, flush.loc(s.node),
-                             "%s escapes flush: a failed/slow task (or a racing completion) makes flush raise "
-                             "instead of returning after all tasks finished" % tok, path=g.fmt_chain(ch)))
-    waits = [c for c in t.calls_in(flush) if (isinstance(c.func, ast.Attribute) and c.func.attr in ("result", "exception"))
-             or any(e == "concurrent.futures.wait" for e in t.resolve_call(c, flush).ext)]
-    if not waits:
-        res.fail(Finding("C09.C", flush.qname, "<wait on pending futures>", flush.loc(), "flush does not wait for pending tasks"))
-    for w in waits:
-        loops = paths.enclosing_loops(p, w, flush)
-        tok = "Exception"
-        ct = g.catching_try(w, flush, tok)
-        if loops and ct is not None and any(paths.within(p, lp, ct[0]) for lp in loops):
-            res.fail(Finding("C09.C", flush.qname, w, flush.loc(w), "the guard wraps the whole wait loop: one timeout stops waiting for the rest"))
-        else:
-            res.ok("C09.C", {"wait": norm(w), "at": flush.loc(w), "per-future": bool(loops)})
-        if loops:
-            it = getattr(loops[0], "iter", None)
-            if it is not None and "_pending" in norm(it):
-                res.ok("C09.C", {"iterates": norm(it)})
-            else:
-                res.fail(Finding("C09.C", flush.qname, loops[0].iter if hasattr(loops[0], "iter") else w, flush.loc(w),
-                                 "flush does not iterate the pending map"))
-    closes = [n for n in t.nodes_in(flush, ast.Assign) if any(isinstance(x, ast.Attribute) and x.attr == "_open" for x in n.targets)]
-    if closes and isinstance(closes[0].value, ast.Constant) and closes[0].value.value is False and \
-            all(paths.dominates(p, closes[0], w, flush) for w in waits):
-        res.ok("C09.C", {"closed before waiting": flush.loc(closes[0])})
-    else:
-        res.fail(Finding("C09.C", flush.qname, "<self._open = False>", flush.loc(), "flush does not close the handler before waiting"))
+    flush_rules(ctx, res, "C09.C")
 
     # ---------------- D
     checks = []
